@@ -3,7 +3,7 @@
    A X + b" is (A m + b, A C A^T).  Generic field: holds for Qc (executable) and R. *)
 From Coq Require Import Arith ZArith List Bool Reals.
 From GPV Require Import Base.LinAlg Base.Exec Base.Expr Base.PySlice Models.C11_mtmvn Models.C10_mvn Proofs.C10_mvn Proofs.C10_kl
-  Models.C10_broadcast Proofs.C10_broadcast.
+  Models.C10_broadcast Proofs.C10_broadcast Base.Det Proofs.C10_det.
 Import ListNotations.
 
 (* indexing = marginal: for ANY index function p into the event dimension (slices, index
@@ -127,6 +127,40 @@ Theorem c10_kl_nonnegative_partial :
           - rsum n (fun i => ln (@mmul RF n Li Lp i i * @mmul RF n Li Lp i i)))%R.
 Proof. exact kl_model_nonneg. Qed.
 Print Assumptions c10_kl_nonnegative_partial.
+
+(* FULL version (Base/Det.v supplies det (T T^T) = (prod diag T)^2 and the triangularity of the inverse of
+   a triangular factor): the model's own expression  2 KL(p || q) = kl_rational + ln det Q - ln det P,
+   with [det] the Laplace determinant the executable model prints and Qi ANY inverse of Q, is well defined
+   (both determinants positive) and non-negative, for every n and all covariances P = Lp Lp^T, Q = Lq Lq^T
+   with lower-triangular (Cholesky) factors of positive diagonal. *)
+Theorem c10_kl_nonnegative :
+  forall n (mp mq P Q Qi Lp Lq Li : @M RF),
+    tri_lower n Lp -> tri_lower n Lq ->
+    (forall i, (i < n)%nat -> (0 < Lp i i)%R) -> (forall i, (i < n)%nat -> (0 < Lq i i)%R) ->
+    is_inverse n Lq Li ->
+    meq n n (mmul n Lp (mT Lp)) P -> meq n n (mmul n Lq (mT Lq)) Q -> is_inverse n Q Qi ->
+    (0 < det n P)%R /\ (0 < det n Q)%R /\
+    (0 <= kl_rational n mp P mq Qi + ln (det n Q) - ln (det n P))%R.
+Proof. exact kl_nonneg_det. Qed.
+Print Assumptions c10_kl_nonnegative.
+
+(* the determinant facts behind it, generic field, every n: multiplicativity of the model's determinant and
+   the determinant of a Cholesky-factored covariance *)
+Theorem c10_det_multiplicative :
+  forall (K : Fld) n (A B : M), det n (mmul n A B) = fmul (det n A) (det n B).
+Proof. intros K. exact (@det_mmul K). Qed.
+Print Assumptions c10_det_multiplicative.
+
+Theorem c10_det_of_cholesky_factored :
+  forall (K : Fld) n (T : M), tri_lower n T ->
+    det n (mmul n T (mT T)) = fmul (dprod n (fun i => T i i)) (dprod n (fun i => T i i)).
+Proof. intros K. exact (@det_tri_gram_lower K). Qed.
+Print Assumptions c10_det_of_cholesky_factored.
+
+Example ex_c10_kl_nonnegative_hypotheses :
+  tri_lower 2 exR_L /\ (forall i, (i < 2)%nat -> (0 < exR_L i i)%R) /\ is_inverse 2 exR_L exR_Li.
+Proof. exact ex_kl_nonneg_hyps. Qed.
+Print Assumptions ex_c10_kl_nonnegative_hypotheses.
 
 (* the inequality behind it, for ANY square W with positive diagonal and any d *)
 Theorem c10_kl_cholesky_form_nonnegative :
